@@ -30,9 +30,11 @@ THEOREMS = [_T + n for n in (
     "option_symbol_translated",
     # the float order the clamping theorems assume is the one of the bit-pattern model
     "fltOps_ordered", "intOps_ordered",
+    # finding C14-K1: the bound an integer port uses vs. the declared literal
+    "declared_int_bound_respected_counterexample", "declared_int_bound_respected_partial",
 )]
 HARNESS = {"src": ["param.cpp"], "deps": ["common.h"]}
-RULE = ("one op line = one port of the fixed table in harness/param.cpp (39 ports: every macro kind x several declared "
+RULE = ("one op line = one port of the fixed table in harness/param.cpp (42 ports: every macro kind x several declared "
         "ranges: negative, fractional, one-sided, absent; storage char/unsigned char/short/int/enum/float/bool/char[]; "
         "arrays of length 1..16 incl. names containing digits), dispatched below `/` or `/sub/`, with a history of "
         "1..8 set/query messages; values: each bound and its neighbours, storage extremes, in-range, far outside, "
@@ -48,6 +50,8 @@ ASSUMPTIONS = [
     "option symbols are among the port's `map N` entries",
     "array addresses are <name><decimal index> with index < declared length; port names contain no NUL, '#', ':'",
     "messages carry at most one argument of a type the port's pattern accepts",
+    "integer ports: the clamping theorems are about the bound the callback uses, atoi(metadata literal); that this "
+    "bound lies inside the declared literal range holds outside the trigger boundTruncatedOutward (finding C14-K1)",
 ]
 TRUSTED = [
     "hand-written model RtoscModel/Param/{Num,Sugar,Port}.lean of rLIMIT, rCAPPLY/rAPPLY, rParamCb, rParamFCb, rParamICb, "
@@ -87,6 +91,8 @@ PORTS = {
     "pi3": dict(kind="int", tag="i", store="i32", var="i32", hi=-1),
     "pi4": dict(kind="int", tag="i", store="i32", var="i32", lo=0, hi=1000000),
     "pi5": dict(kind="int", tag="i", store="i32", var="i32", lo=-2.5, hi=7.9),
+    "pi6": dict(kind="int", tag="i", store="i32", var="i32", lo=2.5, hi=7.9),
+    "pi7": dict(kind="int", tag="i", store="i32", var="i32", lo=-7.9, hi=-2.5),
     "ps": dict(kind="int", tag="i", store="i16", var="i16", lo=-1000, hi=1000),
     "po0": dict(kind="opt", store="i32", map=RGBT),
     "po1": dict(kind="opt", store="i32", map=RGBT, lo=0, hi=3),
@@ -97,6 +103,7 @@ PORTS = {
     "str8": dict(kind="str", cap=8),
     "str1": dict(kind="str", cap=1),
     "str16": dict(kind="str", cap=16),
+    "strf": dict(kind="str", cap=6, set_first=True),     # the field holds 6 non-NUL bytes initially
     "af": dict(kind="flt", n=4, lo="-1.5", hi="2.25"),
     "afs": dict(kind="flt", n=1),
     "afl": dict(kind="flt", n=12, lo="0.1"),
@@ -282,6 +289,8 @@ def gen_line(rng, pid, stats):
     for _ in range(nm):
         idx = gen_index(rng, P, stats) if "n" in P else ""
         r = rng.random()
+        if P.get("set_first") and not msgs:
+            r = 0.5
         if r < 0.22:
             a = "q"
             stats["queries"] = stats.get("queries", 0) + 1
@@ -298,7 +307,7 @@ def gen_line(rng, pid, stats):
 
 
 def generate(rng, tier, stats):
-    n = 12000 if tier == "quick" else 400000
+    n = 40000 if tier == "quick" else 600000
     stats.update({"by_port_kind": {}, "history_len": {}, "mode": {}, "ports": len(PORTS)})
     ids = sorted(PORTS)
     missing = [i for i in ids if i not in table()] + [i for i in table() if i not in PORTS]
@@ -309,9 +318,15 @@ def generate(rng, tier, stats):
         P = PORTS[pid]
         idx = "0@" if "n" in P else ""
         for mode in "RN":
-            yield "%s %s %sq %s%s %sq" % (mode, table()[pid], idx, idx, gen_arg(rng, P, stats), idx)
-    for _ in range(n):
-        yield gen_line(rng, rng.choice(ids), stats)
+            first = "" if P.get("set_first") else idx + "q "
+            yield "%s %s %s%s%s %sq" % (mode, table()[pid], first, idx, gen_arg(rng, P, stats), idx)
+    # `v9` (digit at the end of an array's name) makes the unrepaired rBOILS_BEGIN index far
+    # outside the object on every message; the runner gives up after 200 crashes, so this one
+    # port gets a fixed small share
+    rest = [i for i in ids if i != "v9"]
+    every = max(1, n // 100)
+    for j in range(n):
+        yield gen_line(rng, "v9" if j % every == 0 else rng.choice(rest), stats)
 
 
 def neighbours(op, rng):
@@ -354,10 +369,25 @@ def cstr(b):
     return None if i < 0 else b[:i]
 
 
-def decl_bounds_int(P):
+def decl_bounds_int(P, trunc=False):
+    """integers inside the declared range [lo, hi]: lo rounds up, hi rounds down.
+    trunc=True: what `atoi` makes of the literals (truncation toward zero) - used only to
+    attribute a failure to the known finding C14-K1."""
     lo = P.get("lo")
     hi = P.get("hi")
+    if trunc:
+        return (None if lo is None else int(lo), None if hi is None else int(hi))
     return (None if lo is None else int(math.ceil(lo)), None if hi is None else int(math.floor(hi)))
+
+
+def bound_truncated_outward(P):
+    """Trigger of C14-K1 (Lean: Rtosc.Param.boundTruncatedOutward): an integer port whose
+    declared minimum is a positive non-integral literal, or whose declared maximum is a
+    negative non-integral literal."""
+    if P["kind"] not in ("int", "opt"):
+        return False
+    lo, hi = P.get("lo"), P.get("hi")
+    return (lo is not None and lo > 0 and lo != int(lo)) or (hi is not None and hi < 0 and hi != int(hi))
 
 
 def clamp(v, lo, hi):
@@ -368,7 +398,7 @@ def clamp(v, lo, hi):
     return v
 
 
-def check_msg(P, loc, before, seg, tok):
+def check_msg(P, loc, before, seg, tok, trunc=False):
     """returns (error | None, state after).  `before`/after: list of values or bytes."""
     parts = seg.split(";")
     if len(parts) != 3:
@@ -399,6 +429,8 @@ def check_msg(P, loc, before, seg, tok):
     old = elem(before)
     # ---- query ---------------------------------------------------------------------------
     if arg == "q":
+        if k == "str" and cstr(old) is None:
+            return None, after          # unterminated field: outside the property
         if not matched:
             return "query not delivered", after
         if after != before:
@@ -427,10 +459,9 @@ def check_msg(P, loc, before, seg, tok):
         lo_s, hi_s = INT_RANGE[P["var"]]
         if not (lo_s <= v <= hi_s) or not (lo_s <= old <= hi_s):
             return None, after
-        lo, hi = decl_bounds_int(P)
+        lo, hi = decl_bounds_int(P, trunc)
         new = clamp(v, lo, hi)
         changed = new != old
-        enc = lambda x: str(x)
         dec = lambda s: int(s)
     elif k == "opt":
         lo_s, hi_s = INT_RANGE[P["store"]]
@@ -443,7 +474,7 @@ def check_msg(P, loc, before, seg, tok):
             v = int(arg[1:])
             if not (lo_s <= v <= hi_s):
                 return None, after
-            lo, hi = decl_bounds_int(P)
+            lo, hi = decl_bounds_int(P, trunc)
             new = clamp(v, lo, hi)
         else:
             return None, after
@@ -520,7 +551,7 @@ def check_msg(P, loc, before, seg, tok):
     return None, after
 
 
-def oracle(op, out):
+def oracle(op, out, trunc=False):
     w = op.split()
     if len(w) < 9 or w[1] not in PORTS:
         return None
@@ -539,7 +570,77 @@ def oracle(op, out):
         if seg == "bad-msg":
             continue
         path = w[1].encode() + (tok.split("@")[0].encode() if "@" in tok else b"")
-        err, state = check_msg(P, pfx + path, state, seg, tok)
+        err, state = check_msg(P, pfx + path, state, seg, tok, trunc)
         if err:
             return "message `%s`: %s" % (tok, err)
     return None
+
+
+def known(op, impl_out, model_out, defs):
+    """A failing input belongs to C14-K1 only if the trigger holds for its port, the
+    implementation printed exactly what the defect-mirroring model predicts, and the
+    property holds of that output once the declared bounds are read the way `atoi` reads
+    them; anything else stays a violation."""
+    w = op.split()
+    P = PORTS.get(w[1]) if len(w) > 1 else None
+    if P is None or not bound_truncated_outward(P):
+        return None
+    if model_out is not None and impl_out != model_out:
+        return None
+    if oracle(op, impl_out) is None or oracle(op, impl_out, trunc=True) is not None:
+        return None
+    for d in defs:
+        if d.get("id") == "C14-K1":
+            return d["id"]
+    return None
+
+
+def main(argv):
+    """vlib.main, except that a tree on which the harness dies on more than 200 inputs (the
+    common runner gives up there) is still reported as a VIOLATION with a replay: the corpus
+    and a short generated prefix are run again and the first input the oracle rejects
+    (a crash is rejected) is written out."""
+    import os
+    import random
+    import shutil
+    import sys
+    mod = sys.modules[__name__]
+    try:
+        return vlib.main(mod, argv)
+    except RuntimeError as e:
+        if "crashes on more than 200 inputs" not in str(e):
+            raise
+        note = str(e)
+    seed = int(os.environ.get("VERIF_SEED", "1"))
+    for i, a in enumerate(argv):
+        if a == "--seed" and i + 1 < len(argv):
+            seed = int(argv[i + 1])
+    ops = []
+    corpus = os.path.join(vlib.VERIF, "corpus", PROP + ".ops")
+    if os.path.exists(corpus):
+        ops = [l.strip() for l in open(corpus) if l.strip() and not l.startswith("#")]
+    rng = random.Random(seed * 1000003 + 17)
+    for j, op in enumerate(generate(rng, "quick", {})):
+        if j >= 150:
+            break
+        ops.append(op)
+    exe = vlib.build_harness(ENGINE, HARNESS, "san")
+    work = os.path.join(vlib.BUILD, "run-%s-crash-%d" % (PROP, os.getpid()))
+    os.makedirs(work, exist_ok=True)
+    try:
+        impl = vlib.run_harness(exe, ops, work, "crash")
+    finally:
+        shutil.rmtree(work, ignore_errors=True)
+    defs = vlib.load_known(PROP)
+    for op, a in zip(ops, impl):
+        f = oracle(op, a)
+        if f is not None and not known(op, a, None, defs):
+            path = vlib.write_replay(PROP, "input", {"property": PROP, "kind": "failing-input", "ops": [op], "impl": a,
+                                                     "model": None, "failure": f, "seed": seed,
+                                                     "note": "harness died on more than 200 inputs: " + note[-600:]})
+            print("VIOLATION property=%s replay=%s" % (PROP, path))
+            return 1
+    path = vlib.write_replay(PROP, "nofail", {"property": PROP, "kind": "no-failing-input-found", "seed": seed,
+                                              "note": "harness died on more than 200 inputs: " + note[-1500:]})
+    print("VIOLATION property=%s replay=%s no-failing-input-found" % (PROP, path))
+    return 1
